@@ -178,6 +178,8 @@ class Ctx:
     def forbidden_scan(self):
         bad = []
         for root, _, files in os.walk(COQDIR):
+            if os.path.relpath(root, COQDIR).split(os.sep)[0] == "scratch":
+                continue   # coq/scratch/ is git-ignored and outside the build (Makefile excludes it): parked work in progress
             for f in files:
                 if f.endswith(".v"):
                     p = os.path.join(root, f)
